@@ -16,4 +16,8 @@ var verifHarnesses = map[string]func(){
 	"VerifC10TimeQueue": VerifC10TimeQueue,
 	"VerifC20UpdateQueued": VerifC20UpdateQueued,
 	"VerifC20BeginBlock": VerifC20BeginBlock,
+	"VerifC05AssignStep": VerifC05AssignStep,
+	"VerifC06Prune": VerifC06Prune,
+	"VerifC01Accumulate": VerifC01Accumulate,
+	"VerifC18MapOrder": VerifC18MapOrder,
 }
